@@ -320,7 +320,7 @@ func runB(raw json.RawMessage) *core.Violation {
 			}
 		}
 		s.HalfClose()
-		if !fx.QuiesceTo(alive+readers, wsx.Watchdog) {
+		if !fx.WaitHandlers(alive, wsx.Watchdog) {
 			dirty = true
 		}
 		if len(ts.Service.Agents) == 0 && len(fx.Snapshot().SvcAgents) == 0 && op == nil {
@@ -345,7 +345,7 @@ func runB(raw json.RawMessage) *core.Violation {
 		time.Sleep(100 * time.Microsecond)
 	}
 	s.HalfClose()
-	if !fx.QuiesceTo(alive+readers, wsx.Watchdog) {
+	if !fx.WaitHandlers(alive, wsx.Watchdog) {
 		dirty = true
 		wsx.Obs("not-quiescent-after-service-client")
 	}
